@@ -16,6 +16,10 @@ pub enum JobKind {
     Pipeline,
     /// `true && { ...; }` (and-or list)
     AndOr,
+    /// a simple command running an external program: `xwork D K >> eff.txt`
+    External,
+    /// a pipeline of external programs: `xseq 2 | xwork D K >> eff.txt`
+    ExternalPipeline,
 }
 
 #[derive(Clone, Debug, Serialize, Deserialize, PartialEq)]
@@ -100,6 +104,11 @@ pub fn render(case: &Case) -> String {
                     }
                     JobKind::Pipeline => format!("simseq 2 | {{ simcat >/dev/null; {body} }}"),
                     JobKind::AndOr => format!("true && {{ {body} }}"),
+                    JobKind::External | JobKind::ExternalPipeline => {
+                        let st = if let Fail::Status(s) = j.fail { s } else { 0 };
+                        let pre = if j.kind == JobKind::ExternalPipeline { "xseq 2 | " } else { "" };
+                        format!("{pre}xwork {} {k} {st} >> eff.txt", j.dur)
+                    }
                 };
                 match j.site {
                     Site::Top => s.push_str(&format!("{cmd} &\n")),
@@ -161,7 +170,9 @@ impl C17 {
         let durs = [1u64, 2, 3, 5, 8];
         let mut jobs = vec![];
         for _ in 0..nj {
-            let kind = match rng.below(6) {
+            let kind = match rng.below(8) {
+                6 => JobKind::External,
+                7 => JobKind::ExternalPipeline,
                 0 => JobKind::Brace,
                 1 => JobKind::Subshell,
                 2 => JobKind::Function,
@@ -169,10 +180,11 @@ impl C17 {
                 4 => JobKind::AndOr,
                 _ => JobKind::Brace,
             };
+            let external = matches!(kind, JobKind::External | JobKind::ExternalPipeline);
             let fail = if class == "failing-jobs" {
                 match rng.below(3) {
                     0 => Fail::Status(*rng.pick(&[1u8, 3, 7])),
-                    1 => Fail::Nounset,
+                    1 if !external => Fail::Nounset,
                     _ => Fail::None,
                 }
             } else {
@@ -545,12 +557,12 @@ impl Check for C17 {
         out.into_iter().filter_map(|c| serde_json::to_value(c).ok()).collect()
     }
     fn rule(&self) -> String {
-        "seeded job sets of 1-8 background jobs (brace group, subshell, function, pipeline, and-or list; launched from top level, a function or a loop; some failing with a status or a nounset error) with simulated durations from {1,2,3,5,8}, interleaved with foreground probes/echos, foreground sleeps, `jobs` queries and repeated `wait`, through the -c / script-file / stdin front-ends (stdin sweeps completed jobs between commands), under seeded scheduler strategies and early clock advances; non-trivial = at least two jobs; distinct = distinct (script text, observed finishing order)".into()
+        "seeded job sets of 1-8 background jobs (brace group, subshell, function, pipeline, and-or list, simple external command, pipeline of external commands; launched from top level, a function or a loop; some failing with a status or a nounset error) with simulated durations from {1,2,3,5,8}, interleaved with foreground probes/echos, foreground sleeps, `jobs` queries and repeated `wait`, through the -c / script-file / stdin front-ends (stdin sweeps completed jobs between commands), under seeded scheduler strategies and early clock advances; non-trivial = at least two jobs; distinct = distinct (script text, observed finishing order)".into()
     }
     fn components(&self) -> Value {
         json!({
             "real": ["brush-core jobs.rs (JobManager add_as_current/wait_all/poll/sweep, Job::wait/poll_done)", "interp.rs spawn_async_ao_list_in_task", "brush-builtins wait/jobs", "brush-interactive run_interactively pre-prompt sweep"],
-            "stub": ["tokio scheduler -> token scheduler (one thread per task)", "durations -> simulated clock (simsleep)", "OS signals, job control (fg/bg/^Z), external child processes: not simulated", "CPU-count restriction of the quantifier is subsumed by the scheduler strategies (starve/pct/uniform); tokio worker-count effects are not modelled"]
+            "stub": ["tokio scheduler -> token scheduler (one thread per task)", "durations -> simulated clock (simsleep / xsleep / xwork)", "external programs -> simulated processes behind sim_spawn (spawn composition, ChildProcess wait/poll and status decoding are real)", "OS signals and job control (fg/bg/^Z): not simulated", "CPU-count restriction of the quantifier -> worker-count model W in {1,2,unbounded} plus scheduler strategies"]
         })
     }
     fn assumptions(&self) -> Vec<String> {
